@@ -5,21 +5,29 @@ from lib import build, tlc, replay, report
 def run(tier):
     c = report.Check("C08", "model_checking", tier)
     exe = build.build("rel", ("replay",))["replay"]
-    r = tlc.run("Motion.tla", "Motion.cfg", workers=8, timeout=900)
+    quick = tier != "thorough"
+    r = tlc.run("Motion.tla", "Motion.cfg" if quick else "Motion_thorough.cfg", workers=12, timeout=3000, heap="16g")
     c.add_tlc(r, "frames (rational rotations x translations; longitude offsets); exact group structure on the lattice")
     beh = list(dict.fromkeys(r.behaviours))
+    trench = [b for b in beh if '"trench-shapes"' in b[:600]]
+    beh = [b for b in beh if '"trench-shapes"' not in b[:600]] + (trench[::3] if quick else trench[::7])
     res = replay.replay(exe, beh, shards=16, timeout_s=120)
     c.add_replay(res, "base world at p vs moved world at g.p")
     c.sample(beh[0][:2500] + "...")
     c.coverage["exhaustive"] = True
     c.coverage["distinct_nontrivial"] = len(beh)
     c.coverage["twin_queries"] = res.stats.get("by_check", {}).get("twin", 0)
+    c.coverage["twin_points_dropped_as_unstable_under_jitter"] = res.stats.get("by_check", {}).get("twin-dropped-unstable", 0)
     c.coverage["rule"] = ("one world with every coordinate-bearing entry (area features, a depth surface given at points, a plume with rotated "
                           "elliptic sections, a slab on a curved trench with a mass-conserving temperature and its ridge, a curved fault, half-space and "
                           "plate-model plates with oblique ridges, a cross section) written against 17 Cartesian frames (rotations by 90, 180, 53.13, "
                           "143.13, -67.38 degrees x translations up to 1e7 m) and 6 longitude offsets (30..175, -175, -185 degrees: features cross the "
                           "+-180 meridian), compared at 16 interior probes (>= 10 km from boundaries) with the base world, all of temperature, 7 "
-                          "compositions and tag, tolerance 1e-6; spherical probes also with longitude +-360. non-trivial: all frames")
+                          "compositions and tag, tolerance 1e-6; spherical probes also with longitude +-360. Trench family: slabs and faults on every "
+                          "polyline of 3 (thorough: up to 4) points of a 3x3 (4x4) lattice without exactly collinear triples -- sharp turns, "
+                          "axis-parallel parts, V and S shapes -- with a temperature linear in the distance from the plane, under three rotations / "
+                          "translations, compared on a dense lattice of points at two depths (a third / a seventh of the worlds per run); a "
+                          "disagreement is dropped (and counted) only if the base world's own answer is unstable under a 1e-7 jitter. non-trivial: all")
     c.assumptions += ["probes are at least 10 km from every feature boundary, so membership cannot flip by rounding; the statement's 'up to rounding' is taken as 1e-6 relative",
                       "velocities and grain orientations are not compared (the statement lists temperature, composition, tag and grains; no grains models here)"]
     return c.finish()
